@@ -83,8 +83,13 @@ ASSUMPTIONS = [
 ]
 RULE = ('ALL strings of length <= 3 (quick) / <= 4 (thorough) over the 18-letter alphabet {% + 0 9 A F a f g / ? - ~ space NUL e-acute euro U+1F600} '
         '(6 175 / 111 151 strings, enumerated completely, split over the shards), plus all pairs over the UTF-8 boundary code points U+007F U+0080 U+07FF U+0800 U+D7FF U+E000 U+FFFD U+FFFF U+10000 U+10FFFF '
-        '(also next to % / + / escapes), plus random code-point strings over the whole range (10 % with a lone surrogate: str.encode() only, UnicodeEncodeError expected), plus random strings built from alphabet letters, well-formed escapes '
-        '(ASCII, valid multi-byte UTF-8, invalid UTF-8), malformed escapes and "+" with 0..2 000 pieces (up to ~8 KB; a quarter have 5..10 "%" to sit on the 8-token '
+        '(also next to % / + / escapes), plus ALL 22 x 22 spellings of a hex-digit pair after "%" (both cases, mixed within one escape) in 8 contexts (alone, between literals, as continuation / lead byte of 2-, 3-, 4-byte '
+        'UTF-8 sequences, behind 7 escapes = long path), plus for each of 26 separator-like ASCII characters (; # : @ & = , ? space / [ ] ! * \' ( ) $ . _ \\ " | TAB LF CR) and 20 special code points '
+        '(U+FEFF, zero-width / bidi marks, U+2028/9, NEL, NBSP, SHY, non-characters U+FFFE U+FFFF U+FDD0 U+1FFFE, U+FFFD, both neighbours of the surrogate gap, a tag character, U+10FFFF) every string of length <= 3 / 4 over {% + 4 a F X} containing X, '
+        'plus every special code point raw / escaped in upper, lower and mixed case / partially escaped / raw next to escaped, and 7 escapes of the surrogate range, x 7 prefixes x 7 suffixes (at the START of the result, inside, at the end; '
+        'short path and long path), plus strings made ONLY of "%" and hex digits with 3..20 "%" signs (mostly 7..12) whose piece lengths are unbalanced (total kept at 3n by compensating moves, independent lengths, +-1/2 edits), '
+        'plus random code-point strings over the whole range (10 % with a lone surrogate: str.encode() only, UnicodeEncodeError expected), plus random strings built from alphabet letters, well-formed escapes '
+        '(ASCII, valid multi-byte UTF-8, invalid UTF-8), malformed escapes, separators, special code points and "+" with 0..2 000 pieces (15 % start with a special code point, raw or escaped) (up to ~8 KB; a quarter have 5..10 "%" to sit on the 8-token '
         'path switch), plus RFC 3986 authorities (reg-name / IPv4 / IP-literal x port absent, empty, 1-5 digits) with single-character mutations, plus RFC 7230 quoted-strings. '
         'Each string goes through decode (unquote_plus True/False), encode, encode_value, encode_check_escaped, encode_value_check_escaped - every call is compared with the byte-level model '
         '(on s.encode()) AND with the str-level model (on the code points), together with s.encode(), s.encode().decode("utf-8","replace") and decode(encode*(s)); authorities also with non-ASCII characters (str-level parse_host). '
@@ -99,6 +104,17 @@ ALPHABET = ['%', '+', '0', '9', 'A', 'F', 'a', 'f', 'g', '/', '?', '-', '~', ' '
 
 # first / last code point of every UTF-8 length class, both sides of the surrogate gap, U+FFFD itself
 BOUNDARY = ['\x7f', '\x80', '\u07ff', '\u0800', '\ud7ff', '\ue000', '\ufffd', '\uffff', '\U00010000', '\U0010ffff']
+
+# every spelling of a hex digit: the 22 x 22 pairs after '%' are all swept (both cases, mixed within one escape)
+HEXD = '0123456789ABCDEFabcdef'
+# characters nothing in uri.py splits on or rewrites - but somebody might (RFC 3986 gen-delims / sub-delims, space)
+SEPS = [';', '#', ':', '@', '&', '=', ',', '?', ' ', '/', '[', ']', '!', '*', "'", '(', ')', '$', '.', '_', '\\', '"', '|', '\t', '\n', '\r']
+# code points some codec / text layer treats specially: BOM / ZWNBSP (utf-8-sig strips it at the start), zero-width and bidi marks, line/paragraph
+# separators, NEL, NBSP, soft hyphen, non-characters, the last code point before / first after the surrogate gap, a tag character, the last code point
+SPECIALS = ['\ufeff', '\u200b', '\u200d', '\u200e', '\u2028', '\u2029', '\u2060', '\ufffe', '\uffff', '\xa0', '\x85', '\xad', '\u061c', '\ud7ff', '\ue000',
+            '\ufdd0', '\ufffd', '\U0001fffe', '\U000e0001', '\U0010ffff']
+# escapes of the surrogate range (ill-formed UTF-8: CESU-8 style) and of its two neighbours
+SURROGATE_ESC = ['%ED%A0%80', '%ED%AF%BF', '%ED%B0%80', '%ED%BF%BF', '%ED%A0%80%ED%B0%80', '%ed%a0%80', '%eD%Bf%bF']
 
 # RFC 3986 section 2.2 / 2.3, typed out here (NOT imported from falcon)
 RFC_UNRESERVED = 'ABCDEFGHIJKLMNOPQRSTUVWXYZabcdefghijklmnopqrstuvwxyz0123456789-._~'
@@ -262,6 +278,55 @@ def run(ctx):
                     one_string(t, 'boundary')
                     ctx.count('boundary')
                 idx += 1
+    # ---------------- 1c. every spelling of an escape: all 22 x 22 hex-digit pairs after '%' (both cases, mixed within ONE escape), alone, between
+    #                  literals, in continuation / lead position of 2-, 3- and 4-byte UTF-8 sequences, and behind 7 escapes (long path)
+    PAIR_CTX = ['%{p}', 'a%{p}b', '%C3%{p}', '%{p}%A9', '%e2%82%{p}', '%{p}%82%aC', '%F0%9f%98%{p}', '%41%42%43%44%45%46%47%{p}']
+    for x in HEXD:
+        for y in HEXD:
+            for c_ in PAIR_CTX:
+                if idx % k == i:
+                    one_string(c_.replace('{p}', x + y), 'hex_pair_sweep')
+                    ctx.count('hex_pair_' + ('mixed_case_letters' if (x + y).isalpha() and not (x + y).isupper() and not (x + y).islower() else 'uniform'))
+                idx += 1
+
+    # ---------------- 1d. one extra letter at a time: every string of length <= 3 (4) over {% + 4 a F X} that contains X, for every separator nobody
+    #                  splits on and every special code point (raw)
+    for xch in SEPS + SPECIALS:
+        for n in range(1, L + 1):
+            for tup in itertools.product(['%', '+', '4', 'a', 'F', xch], repeat=n):
+                if xch not in tup:
+                    continue
+                if idx % k == i:
+                    one_string(''.join(tup), 'extra_letter_sweep')
+                    ctx.count('extra_letter_' + ('separator' if xch in SEPS else 'special_code_point'))
+                idx += 1
+
+    # ---------------- 1e. special code points at the START, inside and at the end - raw, escaped (upper / lower / mixed case), partially escaped -
+    #                  on the short path (<= 6 '%') and on the long path (>= 7 '%'); escapes of the surrogate range
+    def esc(t, style):
+        out = []
+        for b in t.encode('utf-8'):
+            h = '%02X' % b
+            if style == 'lower': h = h.lower()
+            elif style == 'mixed': h = ''.join(rnd.choice([ch.lower(), ch.upper()]) for ch in h)
+            out.append('%' + h)
+        return out
+    spell = []
+    for sp in SPECIALS:
+        e_up = esc(sp, 'upper')
+        spell += [sp, ''.join(e_up), ''.join(esc(sp, 'lower')), ''.join(esc(sp, 'mixed')), ''.join(e_up[:-1]), sp + ''.join(e_up), ''.join(e_up) + sp]
+    spell += SURROGATE_ESC
+    PRE = ['', 'a', '%41', '+', '%', 'é', '%41%42%43%44%45%46%47']
+    SUF = ['', 'a', '%41', '%', '%4', '+', '%41%42%43%44%45%46%47']
+    for sp in spell:
+        for a in PRE:
+            for b in SUF:
+                if idx % k == i:
+                    t = a + sp + b
+                    one_string(t, 'special_code_points')
+                    ctx.count('special_' + ('at_start' if a == '' else 'inside_or_end') + ('_long_path' if t.count('%') >= 7 else '_short_path' if '%' in t else '_no_pct'))
+                idx += 1
+
     # str.encode() alone on the whole code-point range (the model of UnicodeEncodeError included: a lone surrogate is refused)
     for _ in range(ctx.n(1500, 15000)):
         r = rnd.random()
@@ -283,17 +348,50 @@ def run(ctx):
 
     # ---------------- 2. random strings, up to several KB, crossing the 8-token switch
     WELL = ['%41', '%7e', '%2B', '%25', '%00', '%20', '%2f', '%C3%A9', '%c3%a9', '%E2%82%AC', '%F0%9F%98%80',
-            '%C3', '%A9', '%FF', '%fe', '%ED%A0%80', '%C0%AF', '%E2%82', '%F0%9F', '%80']
+            '%C3', '%A9', '%FF', '%fe', '%ED%A0%80', '%C0%AF', '%E2%82', '%F0%9F', '%80',
+            '%c3%A9', '%C3%a9', '%e2%82%aC', '%Ef%bB%Bf', '%EF%BB%BF', '%ef%bb%bf', '%E2%80%8B', '%E2%80%A8', '%EF%BF%BE', '%EF%BF%BF', '%ED%BF%BF', '%3B', '%3b', '%Fa', '%cE%b1']
     MAL = ['%', '%%', '%4', '%G1', '%1G', '%g', '% 1', '%+1', '%\x00', '%é', '%4€', '%-1', '%0x', '%x0']
 
     def piece():
         r = rnd.random()
-        if r < 0.40: return rnd.choice(ALPHABET)
+        if r < 0.36: return rnd.choice(ALPHABET)
+        if r < 0.40: return rnd.choice(SEPS + SPECIALS)
         if r < 0.55: return rnd.choice("bcdexyzXYZ12345678._:#[]@!$&'()*,;=\"<>\\^`{|}\n\t\x7f")
-        if r < 0.80: return rnd.choice(WELL)
-        if r < 0.83: return '%%%02x' % rnd.randrange(256) if rnd.random() < 0.5 else '%%%02X' % rnd.randrange(256)
+        if r < 0.78: return rnd.choice(WELL)
+        if r < 0.83: return '%' + rnd.choice(HEXD) + rnd.choice(HEXD)          # any of the 484 spellings
         if r < 0.95: return rnd.choice(MAL)
         return chr(rnd.choice([0x7f, 0x80, 0xff, 0x100, 0x7ff, 0x800, 0xd7ff, 0xe000, 0xfffd, 0xffff, 0x10000, 0x10ffff]))
+
+    def pct_hex_only():
+        """Nothing but '%' and hex digits; the lengths of the pieces between the '%' signs are unbalanced in every way: a short piece (truncated
+        escape) compensated by surplus digits elsewhere (the total stays 3 x the number of '%'), independent random lengths, or +-1 edits of a fully
+        escaped string."""
+        n = rnd.choice([3, 5, 6, 7, 7, 7, 8, 8, 9, 10, 11, 12, 12, 20])
+        r = rnd.random()
+        if r < 0.45:
+            lens = [0] + [2] * n
+            for _ in range(rnd.randint(1, 4)):
+                a, b = rnd.randrange(n + 1), rnd.randrange(n + 1)
+                if a != b and lens[a] > 0:
+                    lens[a] -= 1; lens[b] += 1
+            shape = 'balanced_total'
+        elif r < 0.8:
+            lens = [rnd.choice([0, 0, 1, 2, 3])] + [rnd.choice([0, 1, 2, 2, 2, 3, 4]) for _ in range(n)]
+            shape = 'independent'
+        else:
+            lens = [0] + [2] * n
+            for _ in range(rnd.randint(1, 3)):
+                a = rnd.randrange(n + 1)
+                lens[a] = max(0, lens[a] + rnd.choice([-2, -1, 1, 2]))
+            shape = 'edited'
+        digits = rnd.choice([HEXD, HEXD, '0123456789', 'abcdef', 'ABCDEF', 'abcdefABCDEF', '4'])
+        return '%'.join(''.join(rnd.choice(digits) for _ in range(m)) for m in lens), shape, n
+
+    for _ in range(ctx.n(3000, 60000)):
+        s, shape, n = pct_hex_only()
+        one_string(s, 'pct_and_hex_digits_only')
+        ctx.count('pct_hex_only_' + shape + ('_short_path' if n < 7 else '_long_path'))
+        ctx.count('pct_hex_only_total_' + ('equals_3n' if len(s) == 3 * n else 'differs_from_3n'))
 
     for _ in range(ctx.n(4000, 80000)):
         shape = rnd.random()
@@ -323,6 +421,11 @@ def run(ctx):
         else:
             npieces = rnd.choice([3, 8, 8, 20, 20, 60, 200, 600, 2000])
             s = ''.join(piece() for _ in range(rnd.randint(1, npieces))); kind = 'random'
+            if rnd.random() < 0.15:
+                # a special code point as the very FIRST character of the result, raw or escaped
+                sp = rnd.choice(SPECIALS)
+                s = (sp if rnd.random() < 0.5 else ''.join(esc(sp, rnd.choice(['upper', 'lower', 'mixed'])))) + s
+                ctx.count('random_with_leading_special_code_point')
         one_string(s, kind)
         ctx.count(kind)
         ctx.count('pct_signs_' + ('0' if '%' not in s else '1-6' if s.count('%') < 7 else '7+'))
